@@ -7,4 +7,6 @@ git apply "$P" 2>/dev/null || git apply --3way "$P" >/dev/null 2>&1 || { echo "p
 cd /verif && ./check "$ID" --tier "$TIER" 2>&1 | grep -v "^WARNING conda" | tail -${TAIL:-12}
 RC=$?
 git -C /repo reset -q --hard HEAD
+# the evidence file now describes the seeded tree: put back the committed one (from a run on the unchanged tree)
+git -C /verif checkout -q -- "evidence/$ID.json" 2>/dev/null
 echo "== reverted; /repo status: $(git -C /repo status --porcelain --untracked-files=no | wc -l) changes"
